@@ -42,7 +42,7 @@ ENGINES_META = [
 CHECKS = {
     'C03': dict(engine='pipeline', design_ref='5 (C03)', note=PIPE_NOTE,
                 technique='deterministic simulation (virtual-time asyncio loop) + seeded schedule/fault search + reference-model oracle',
-                text='Seeded search over interleavings of express/Data/Nack/timer/cancel/shutdown and validator latencies in both front-ends, decided by an executable PIT reference model over the recorded history (exactly-once, right outcome, no internal error, nothing left pending). Sampling, not proof: right level because the property is quantified over schedules.',
+                text='Seeded search over interleavings of express/Data/Nack/timer/cancel/shutdown and validator latencies in both front-ends, decided by an executable PIT reference model over the recorded history (exactly-once, right outcome, no internal error, nothing left pending). Callers may await at once, late (up to three lifetimes after express()) or never; the system clock is stepped forwards and backwards while Interests are out, and such runs are judged like any other (a lifetime is a duration); streams die with EOF, reset, time-out, abort, broken pipe or unreachable host. Sampling, not proof: right level because the property is quantified over schedules.',
                 level='exploration', real=PIPE_REAL, stub=STUB_COMMON,
                 rule='seed -> scripted scenario (1-7 Interests on colliding names, Data/Nack/cancel/shutdown events '
                      'aimed at the lattice around each deadline and validator completion); a run is non-trivial when '
@@ -50,7 +50,7 @@ CHECKS = {
                      'order signature (SHA-1 over the executed sequence of event kinds and entity indices)'),
     'C04': dict(engine='pipeline', design_ref='5 (C04)', note=PIPE_NOTE,
                 technique='deterministic simulation (virtual-time asyncio loop) + seeded schedule/fault search + reference-model oracle',
-                text='Seeded attach/detach histories and Interest arrivals against a dict model of longest-prefix dispatch; reply callbacks fired on a lattice around the Interest deadline.',
+                text='Seeded attach/detach histories and Interest arrivals against a dict model of longest-prefix dispatch; reply callbacks fired on a lattice around the Interest deadline (also after a step of the system clock, and after the face went down). In the legacy front-end handlers are also attached through register()/unregister() against a fake forwarder that acknowledges, refuses, nacks or ignores each command; prefixes are given as URI, component lists, wire bytes, bytearray and memoryview (overwritten after the call), with long typed components.',
                 level='exploration', real=PIPE_REAL, stub=STUB_COMMON,
                 rule='seed -> attach/detach history over a small prefix tree in random name representations, incoming '
                      'Interests at/below/above/beside prefixes, replies aimed at the lattice around the Interest '
@@ -61,10 +61,10 @@ CHECKS = {
                 level='exploration', real=PIPE_REAL, stub=STUB_COMMON,
                 rule='seed -> consumer scenarios with every validator verdict and latencies before/at/after the '
                      'deadline, producer scenarios with parameterised/signed Interests, correct and broken digests, '
-                     'route validators of every verdict; non-trivial and distinct as for C03'),
+                     'route validators of every verdict and shape (coroutine, callable returning a Future, raising, falsy callable object), several Interests pending in one PIT node with different validators; non-trivial and distinct as for C03'),
     'C06': dict(engine='pipeline', design_ref='5 (C06)', note=PIPE_NOTE,
                 technique='deterministic simulation (virtual-time asyncio loop) + seeded schedule/fault search + reference-model oracle',
-                text='Fault injection on the receive path: mutated/raw byte strings into a non-trivial app state on every face kind (no raise, no dead task, no collateral damage), and stream framing under exhaustively enumerated cut/EOF positions for short streams.',
+                text='Fault injection on the receive path: mutated/raw byte strings into a non-trivial app state on every face kind (no raise, no dead task, no collateral damage), and stream framing under exhaustively enumerated cut/EOF positions for short streams, EOF in the same wake-up as the last bytes, every kind of connection error, and a second connection on the same face object. Envelopes come with headers in and out of order, Sequence in front, Nack around Data, fragments; receive buffers are bytes, bytearray or memoryview. An element that overruns its parent and is acted upon is reported under the open finding C06:overrun-accepted.',
                 level='exploration', real=PIPE_REAL, stub=STUB_COMMON,
                 rule='3/4 of seeds: state-building ops, then mutated/raw/odd-envelope byte strings, then the legitimate '
                      'packets (all face kinds); 1/4 of seeds: stream framing with exhaustive cut and EOF positions for '
@@ -72,7 +72,7 @@ CHECKS = {
                      'inside a packet (framing); distinct = order signature'),
     'C10': dict(engine='pipeline', design_ref='5 (C10)', note=PIPE_NOTE,
                 technique='deterministic simulation (virtual-time asyncio loop) + seeded schedule/fault search + reference-model oracle',
-                text='Differential simulation: each scenario is executed with envelopes kept and stripped and compared observable by observable; Nack reasons, fragment rejection and PIT-token echo are checked with the independent TLV reader.',
+                text='Differential simulation: each scenario is executed with envelopes kept and stripped and compared observable by observable; Nack reasons (also absent), fragment rejection (every FragIndex/FragCount combination), out-of-order headers and PIT-token echo are checked with the independent TLV reader.',
                 level='exploration', real=PIPE_REAL, stub=STUB_COMMON,
                 rule='seed -> scenario executed twice (envelopes kept / stripped) and compared observable by '
                      'observable; Nack reasons up to 2^64-1, fragmented envelopes, PIT tokens of length 0-40 on several '
@@ -123,7 +123,7 @@ CHECKS['C18'] = dict(
     technique='deterministic simulation (virtual-time asyncio loop, simulated wall clock, scripted timer randomness) + '
               'reference state-vector model stepped with the same events',
     text='Seeded search over sequences of received vectors (newer, older, incomparable, over-claiming, malformed in 8 ways), '
-         'local publications, start/stop/back-to-back restart, sequence numbers up to 2**63, placed relative to the suppression timer the instance will sample; oracle = '
+         'vectors listing a node twice, node ids in non-minimal TLV encoding, local publications (also while stopped), start/stop/back-to-back restart, intervals with the face down, raising application callbacks, sequence numbers up to 2**63, placed relative to the suppression timer the instance will sample; oracle = '
          'entry-wise-max model checked after every handled Interest, monotonicity checked after every loop step, callback iff '
          'an entry was raised, publication emits the full vector promptly, suppression end emits iff local is newer than the '
          'merge of the vectors heard, and every emitted sync Interest has exactly one cause.',
@@ -147,8 +147,9 @@ CHECKS['C20'] = dict(
          'file styles and store schemes; read_client_conf, default_keychain and the connection NDNApp() really attempts on '
          'the simulated network are compared with a 30-line reference resolver.',
     note='Trusted: the fake os/open seam, the reference resolver, SimLoop. There is no schedule in this property: the simulator '
-         'contributes the environment/transport seams and the end-to-end observation of the endpoint. Abstains when neither '
-         'the given nor the platform default store location exists, and for URIs without host/path.',
+         'contributes the environment/transport seams and the end-to-end observation of the endpoint. Abstains for URIs without host/path. '
+         'File styles include comments, upper-case keys, blank-padded separators and indented key lines; store locations may be '
+         'missing as given, relative to the file, and at the platform default (a fresh account).',
     real=['ndn.client_conf (read_client_conf, default_face, default_keychain)', 'ndn.platform.linux', 'ndn.platform.general',
           'ndn.appv2.NDNApp / ndn.app.NDNApp constructors and main_loop', 'UnixFace/TcpFace/UdpFace.open', 'configparser, urllib.parse'],
     stub=['os.environ / os.path.exists / expanduser / open (fake file system)', 'TpmFile and KeychainSqlite3 constructors (recording stand-ins)',
@@ -166,7 +167,8 @@ CHECKS['C02'] = dict(
          'bytes handed to the signer and the bytes reported to the verifier are compared with the signed portion recomputed '
          'from the wire; one seeded mutation per packet in flight; acceptance must imply an unchanged signed portion and '
          'signature value; the parameters-digest check is compared with SHA-256(ApplicationParameters..end) on every Interest '
-         'that crossed the link.',
+         'that crossed the link. Each mutated packet is also handed to parse + known-key verifier directly (the verifier on its own, '
+         'without the front-end dropping the packet first); a packet accepted under another name than the signed one is reported whatever the edit was.',
     note='Trusted: the independent TLV reader (simkit/tlvref.py), pycryptodomex, SimLoop. The schedule dimension adds nothing to '
          'this property; the simulator contributes the corruption fault model and the end-to-end observation. Packets with an '
          'unrecognised element between SignatureInfo and SignatureValue are not judged (the two readings of "signed portion" differ).',
